@@ -71,7 +71,7 @@ def py_call(W, r):
   n = W if l == 0 else l
   if t == 0: return ('r', a, n)
   if t == 1: return ('w', a, n, d % (1 << (8 * n)))
-  if 3 <= t <= 11: return ('a', t, a, n, d)
+  if 3 <= t <= 11: return ('a', t, a, n, d % (1 << (8 * n)))
   return None
 
 def propose_log(W, reqs, order):
@@ -159,10 +159,10 @@ class Impl:
       if me.obs is not None and me.depth == 0: me.obs.append((port(), ('r', int(addr), int(nbytes))))
       return o_read(self, addr, nbytes)
     def write(self, addr, nbytes, data):
-      if me.obs is not None and me.depth == 0: me.obs.append((port(), ('w', int(addr), int(nbytes), int(data))))
+      if me.obs is not None and me.depth == 0: me.obs.append((port(), ('w', int(addr), int(nbytes), int(data) % (1 << (8 * int(nbytes))))))
       return o_write(self, addr, nbytes, data)
     def amo(self, amo_, addr, nbytes, data):
-      if me.obs is not None and me.depth == 0: me.obs.append((port(), ('a', int(amo_), int(addr), int(nbytes), int(data))))
+      if me.obs is not None and me.depth == 0: me.obs.append((port(), ('a', int(amo_), int(addr), int(nbytes), int(data) % (1 << (8 * int(nbytes))))))
       me.depth += 1
       try: return o_amo(self, amo_, addr, nbytes, data)
       finally: me.depth -= 1
@@ -433,6 +433,7 @@ def run(ctx):
       tm = gen_timing(rng, impl, nports, lat if k == 0 else None, st if k == 0 else None)
       hists.append(simulate(I, impl, W, reqs, init, tm, (lo, hi)))
 
+  ctx.extra['sim_s'] = round(time.time() - ctx.t0, 1)
   # ---- Coq decides
   live = [h for h in hists if not h['exception']]
   cases = [case_term(h) for h in live]
@@ -445,6 +446,7 @@ def run(ctx):
                 'responses': h['out'], 'cycles': h.get('cycles')})
   bad = ctx.coq_bad_indices('hist', IMPORTS, DEFS, CASE_T, cases, OK_BODY, shard=60) if cases else []
   badset = set(bad)
+  ctx.extra['coq_judge_s'] = round(time.time() - ctx.t0 - ctx.extra['sim_s'], 1)
   # the python replica must agree with Coq on every case (guards the replica used for shrinking / diagnosis)
   for i, h in enumerate(live):
     if py_check(h)[0] != (i not in badset):
